@@ -278,7 +278,7 @@ class PseudoNetCDFVariable(np.ndarray):
         value : scalar
             assign value to scalar variable
         """
-        self.itemset(value)
+        self[...] = value
 
 
 class PseudoNetCDFMaskedVariable(PseudoNetCDFVariable, np.ma.MaskedArray):
@@ -429,7 +429,7 @@ class PseudoNetCDFMaskedVariable(PseudoNetCDFVariable, np.ma.MaskedArray):
         value : scalar
             value to assign to scalar variable
         """
-        self.itemset(value)
+        self[...] = value
 
 
 def PseudoIOAPIVariable(parent, name, typecode, dimensions, **kwds):
